@@ -446,7 +446,8 @@ static bool need_space(Token *prev, Token *tok) {
   // number such as `1e` becomes part of the number.
   if (word1 && (word2 || b == '"' || b == '\''))
     return true;
-  if (prev->kind == TK_PP_NUM && (b == '+' || b == '-'))
+  if ((prev->kind == TK_PP_NUM || prev->kind == TK_NUM) &&
+      (a == 'e' || a == 'E' || a == 'p' || a == 'P') && (b == '+' || b == '-'))
     return true;
 
   // Two punctuators that form a longer punctuator or start a comment.
@@ -584,6 +585,9 @@ static void cc1(void) {
     return;
   }
 
+  // Adjacent string literals are concatenated for the compiler proper
+  // only; -E above prints every literal as it was written.
+  join_adjacent_string_literals(tok);
   Obj *prog = parse(tok);
 
   // Open a temporary output buffer.
